@@ -27,12 +27,14 @@ class DynamicFields:
   def __setattr__(self, name, value):
     try:
       attr = super().__getattribute__(name)
-      if not isinstance(attr, DynamicField):
-        return super().__setattr__(name, value)
-      else:
-        attr.set(self, value)
     except AttributeError:
       return self._set_dynamic_field(name, value)
+    if not isinstance(attr, DynamicField):
+      return super().__setattr__(name, value)
+    else:
+      # exceptions raised by the setter, including AttributeError,
+      # are not handled here: they must reach the caller
+      attr.set(self, value)
 
   def _get_dynamic_field(self, name, err):
     if self.virtual:
@@ -58,16 +60,17 @@ class DynamicFields:
     try:
       virtual = super().__getattribute__("_virtual")
       data = super().__getattribute__("_data")
-      if virtual:
-        super().__setattr__(name, value)
-      if name in data:
-        self._set_existing_field(name, value)
-      if (name in self.__class__.PREDEFINED_TAGS or
-            self._is_valid_custom_tagname(name)):
-        self.set(name, value)
-      else:
-        super().__setattr__(name, value)
     except AttributeError:
+      # the line is not initialized yet
+      return super().__setattr__(name, value)
+    if virtual:
+      super().__setattr__(name, value)
+    if name in data:
+      self._set_existing_field(name, value)
+    if (name in self.__class__.PREDEFINED_TAGS or
+          self._is_valid_custom_tagname(name)):
+      self.set(name, value)
+    else:
       super().__setattr__(name, value)
 
   def _define_field_methods(self, fieldname):
